@@ -384,7 +384,7 @@ def run_scenario(chk, tool, model, rng, root, idx, stats):
     fam = {'skip_fallocate': rng.random() < 0.5, 'add_split': rng.random() < 0.6, 'damage': rng.random() < 0.8}
     # the first scenarios of every run reach every family whatever the seed
     force = {1: {'add': 'prealloc_misaligned'}, 2: {'add': 'prealloc_data', 'damage': 'cut_unaligned'}, 3: {'add': 'absent', 'damage': 'delete'},
-             4: {'damage': 'extend'}, 5: {'add': 'prealloc_zero', 'damage': 'cut_aligned'}, 6: {'damage': 'empty'}}.get(idx, {})
+             4: {'damage': 'extend'}, 5: {'add': 'prealloc_zero', 'damage': 'cut_aligned'}, 6: {'damage': 'empty'}, 7: {'damage': 'cut_zero_tail'}, 8: {'damage': 'cut_zero_tail'}}.get(idx, {})
     if 'add' in force:
         fam['add_split'] = True
     if 'damage' in force:
@@ -447,6 +447,17 @@ def run_scenario(chk, tool, model, rng, root, idx, stats):
         rcA, outA, lgA = A.run(['sync'])
         rcB, outB, lgB = B.run(['sync'])
         stats['commands'] += 2
+        short = any(before[l][i] < recorded[l][i] for l in range(nlev) for i in range(nsplit[l]))
+        if rcB != 0 and short and 'smaller than expected' in outB:
+            # a split file is shorter than recorded (left so by fix): the sync interlock on the bytes really present (C14, /repo
+            # 03a455c) refuses a plain sync; that is correct, the healing step is sync --force-full (on the twin too)
+            stats['sync_refused_by_size_interlock'] += 1
+            if B.file_sizes() != before:
+                viol(tag, 'the refused sync changed the split files: %s -> %s' % (before, B.file_sizes()))
+                return False
+            rcA, outA, lgA = A.run(['-F', 'sync'])
+            rcB, outB, lgB = B.run(['-F', 'sync'])
+            stats['commands'] += 2
         if rcA != 0:
             viol(tag, 'sync of the single-file twin failed rc=%d: %s' % (rcA, outA[-300:]))
             return False
@@ -525,8 +536,24 @@ def run_scenario(chk, tool, model, rng, root, idx, stats):
         l, i = rng.choice(cands)
         path = B.levels[l][i]
         rec = recorded[l][i]
-        kind = rng.choice(['delete', 'cut_aligned', 'cut_unaligned', 'extend', 'empty'])
+        kind = rng.choice(['delete', 'cut_aligned', 'cut_unaligned', 'extend', 'empty', 'cut_zero_tail'])
         kind = force.get('damage', kind)
+        if kind == 'cut_zero_tail':
+            # cut inside a run of zero parity bytes at the end of a split (signature of F-C17-fix-leaves-short-split)
+            zt = []
+            for (cl, ci) in cands:
+                pre = sum(recorded[cl][:ci])
+                reg = open(A.levels[cl][0], 'rb').read()[pre:pre + recorded[cl][ci]]
+                z = len(reg) - len(reg.rstrip(b'\0'))
+                if 2 <= z < len(reg):
+                    zt.append((cl, ci, z))
+            if zt:
+                l, i, z = rng.choice(zt)
+                path = B.levels[l][i]
+                rec = recorded[l][i]
+                os.truncate(path, rec - rng.randrange(1, min(z, BS)))
+            else:
+                kind = 'cut_unaligned'
         if kind == 'delete':
             os.remove(path)
         elif kind == 'empty':
@@ -535,6 +562,8 @@ def run_scenario(chk, tool, model, rng, root, idx, stats):
             os.truncate(path, rng.randrange(0, rec // BS) * BS)
         elif kind == 'cut_unaligned':
             os.truncate(path, rng.randrange(0, rec // BS) * BS + rng.randrange(1, BS))
+        elif kind == 'cut_zero_tail':
+            pass
         else:
             with open(path, 'ab') as f:
                 f.write(bytes(rng.getrandbits(8) for _ in range(rng.choice([1, BS - 1, BS, 2 * BS + 7]))))
@@ -656,7 +685,7 @@ def run_scenario(chk, tool, model, rng, root, idx, stats):
         if rc == 1 and cut_from and zeros_missing and good:
             # known finding F-C17-fix-leaves-short-split (harness/py/c17_repro_fix_short.py): the cut part of the split held zeros; fix
             # extended the file (zeros), found the parity equal, wrote nothing, and parity_truncate cut the file back to its damaged
-            # length (valid_size is not raised by growth): check keeps reporting a read error until the next sync regrows the file
+            # length (valid_size is not raised by growth): check keeps reporting a read error until a sync --force-full regrows the file (a plain sync is refused since 03a455c)
             stats['fix_left_short_file_check_fails'] += 1
             viol('damage_recheck_short', 'fix of a %s split exited 0 but left the split file shorter than recorded (%s, recorded %s; the missing bytes are zeros) and check reports a read error' %
                  (kind, B.file_sizes(), recorded), dict(d, files_after_fix=B.file_sizes()), finding_key='F-C17-fix-leaves-short-split')
@@ -966,8 +995,9 @@ def main(tier, replay=None):
             else:
                 chk.violation('relayout_other', 'relayout scenario: fix exits 0 with files %s, check exits %d (%s)' % (r1['sizes_after_fix'], r1['check_after_fix_rc'], r1['check_after_fix_tail']),
                               dict(r1, how='python3 harness/py/c17_repro_fix_relayout.py'))
-        if r1['sync1_rc'] == 0 and (r1['sync2_rc'] != 0 or r1['check_after_sync2_rc'] != 0 or sum(r1['sizes_after_sync2']) != 8192):
-            chk.violation('relayout_sync', 'relayout scenario: the sync after fix exits %s, files %s, check exits %s' % (r1['sync2_rc'], r1['sizes_after_sync2'], r1['check_after_sync2_rc']),
+        if r1['sync1_rc'] == 0 and not r1['healed']:
+            chk.violation('relayout_sync', 'relayout scenario: the sync after fix exits %s (refused by the size interlock: %s, sync -F exits %s), files %s, check exits %s' %
+                          (r1['sync2_rc'], r1['sync2_refused_by_interlock'], r1.get('sync2_forced_rc'), r1['sizes_after_sync2'], r1['check_after_sync2_rc']),
                           dict(r1, how='python3 harness/py/c17_repro_fix_relayout.py'))
         r2 = c17_repro_fix_short.reproduce(tool, os.path.join(scratch, 'short'))
         chk.cov['finding_fix_short'] = r2
@@ -981,8 +1011,9 @@ def main(tier, replay=None):
             else:
                 chk.violation('short_other', 'short-split scenario: fix exits %s leaving p0 at %s bytes, check exits %s (%s)' % (r2['fix_rc'], r2['p0_after_fix'], r2['check_rc'], r2['check_tail']),
                               dict(r2, how='python3 harness/py/c17_repro_fix_short.py'))
-        if r2['sync_rc'] == 0 and (r2['sync2_rc'] != 0 or r2['p0_after_sync2'] != 1024 or r2['check3_rc'] != 0):
-            chk.violation('short_sync', 'short-split scenario: the sync after fix exits %s, p0 has %s bytes, check exits %s' % (r2['sync2_rc'], r2['p0_after_sync2'], r2['check3_rc']),
+        if r2['sync_rc'] == 0 and not r2['healed']:
+            chk.violation('short_sync', 'short-split scenario: the sync after fix exits %s (refused by the size interlock: %s, sync -F exits %s), p0 has %s bytes, check exits %s' %
+                          (r2['sync2_rc'], r2['sync2_refused_by_interlock'], r2.get('sync2_forced_rc'), r2['p0_after_sync2'], r2['check3_rc']),
                           dict(r2, how='python3 harness/py/c17_repro_fix_short.py'))
     except Exception as e:
         chk.violation('findings_run', 'the scenarios of the open findings could not be run: %r' % e, {'error': repr(e)}, no_input=True)
@@ -990,8 +1021,8 @@ def main(tier, replay=None):
     # ---- command level
     cstats = dict(commands=0, steps=0, level_checks=0, expected_failures=0, limit_hit_mid_growth=0, levels_spanning_several_splits=0,
                   dropped_split_cases=0, dropped_accepted=0, dropped_refused=0, skip_fallocate_scenarios=0, added_split_absent=0, added_split_prealloc_zero=0, added_split_prealloc_data=0, added_split_prealloc_misaligned=0,
-                  damage_delete=0, damage_empty=0, damage_cut_aligned=0, damage_cut_unaligned=0, damage_extend=0, damage_detected_by_check=0, restore_refused=0, fix_relayout_cases=0,
-                  damage_level_checks=0, fix_left_unwritten_tail_blocks=0, fix_left_short_file_check_fails=0, fix_restored_files=0, scenarios_completed=0)
+                  damage_delete=0, damage_empty=0, damage_cut_aligned=0, damage_cut_unaligned=0, damage_cut_zero_tail=0, damage_extend=0, damage_detected_by_check=0, restore_refused=0, fix_relayout_cases=0,
+                  damage_level_checks=0, fix_left_unwritten_tail_blocks=0, sync_refused_by_size_interlock=0, fix_left_short_file_check_fails=0, fix_restored_files=0, scenarios_completed=0)
     nscen = (30 if tier == 'quick' else 250) * (2 if broken else 1)
     descs = []
     for i in range(nscen):
@@ -1049,10 +1080,10 @@ def main(tier, replay=None):
                         'parity_truncate), --test-skip-fallocate, splits added to the configuration (preallocated or not), refusal of misaligned preallocation and of a 9th split; '
                         'the chsize decisions inside these commands are predicted by the model (sizes and grow traces)',
                         'OPEN FINDING F-C17-fix-relayout-not-recorded (driven on every run, reported through finding_key): when the LAST USED split is lost and has less room than recorded, fix lays the parity out over the next split, '
-                        'reports success and does not record the new sizes; check then reports errors until the next sync (harness/py/c17_repro_fix_relayout.py); '
+                        'reports success and does not record the new sizes; check then reports errors until a sync --force-full (harness/py/c17_repro_fix_relayout.py); '
                         'random scenarios meeting it are counted as fix_relayout_cases and end there',
                         'OPEN FINDING F-C17-fix-leaves-short-split (driven on every run, reported through finding_key): a split cut inside a region whose parity bytes are zero is extended by fix, compared equal, not written, and cut '
-                        'again by parity_truncate (valid_size is not raised by growth): fix says OK, check keeps reporting a read error until the next sync '
+                        'again by parity_truncate (valid_size is not raised by growth): fix says OK, check keeps reporting a read error until a sync --force-full (a plain sync is refused by the size interlock since /repo 03a455c) '
                         '(harness/py/c17_repro_fix_short.py); counted as fix_left_short_file_check_fails',
                         'HYPOTHESIS of the flat-file oracle on ops histories = hypothesis wf of C17_split_concat: at every resize each split file has its recorded '
                         'size; parity_truncate (T) breaks it; a history is still judged after T as long as the limits are unchanged (the resize then restores the '
